@@ -182,6 +182,25 @@ def t_setcar(rng):
             "(define v (vector 1 2 3)) (vector-set! v 0 v) (vector-length (vector-ref v 0))" % n)
 
 
+def t_cont_session(rng):
+    """a continuation session of the C05 generator (captures in operand / tail / internal-definition positions, inside
+    procedures with and without parameters, re-entered from later forms) as one program text: under a forced-collection
+    schedule everything a saved continuation needs (stack copy, %ep environment, %bp chain) must survive"""
+    import scheme_gen as G
+    forms = G.c05_session(rng, G.Dist(), wide=False)
+    return " ".join(forms)
+
+
+def t_thunk_cont(rng):
+    # call/cc directly in the body of a procedure WITHOUT parameters that is the whole top-level form (its frame has
+    # %bp = 0), locals live in its environment only; re-entered after the evaluation ended
+    n = rng.randint(1, 3)
+    return ("(define k3 #f) (define n3 0) "
+            "(define (gen3) (define loc 5) (define v (call/cc (lambda (c) (set! k3 c) 1))) (set! loc (+ loc v)) (list loc v)) "
+            "(gen3) (list 'between (make-vector 3 0)) "
+            "(if (< n3 %d) (begin (set! n3 (+ n3 1)) (k3 (* 10 n3))) 'done) n3" % n)
+
+
 def t_mixed(rng):
     parts = [rng.choice(TEMPLATES)[1](rng) for _ in range(2)]
     # definitions of the same global name in two templates simply shadow each other
@@ -191,7 +210,8 @@ def t_mixed(rng):
 TEMPLATES = [("list", t_list), ("vector", t_vector), ("vector-fill", t_vector_fill), ("string", t_string), ("closure", t_closure),
              ("callcc-args", t_callcc_args), ("callcc-escape", t_callcc_escape), ("generator", t_generator),
              ("eval", t_eval), ("symbols", t_symbols), ("macro", t_macro), ("bignum", t_bignum),
-             ("promise", t_promise), ("error", t_error), ("assoc", t_assoc), ("setcar", t_setcar)]
+             ("promise", t_promise), ("error", t_error), ("assoc", t_assoc), ("setcar", t_setcar),
+             ("cont-session", t_cont_session), ("thunk-cont", t_thunk_cont), ("cont-session", t_cont_session)]
 
 RC_CYCLE_WITNESS = "(define v (make-vector 3 0)) (vector-fill! v v) (vector-length v)"
 
